@@ -11,6 +11,7 @@ DECIDED = ("R1 every entry of the knight/king/pawn-attack/pawn-push/rook-ray/bis
            "double-step constants equal their definitions; R3 each accessor returns the table entry for its arguments and the pawn helpers/distance "
            "compute the stated formula (normalised MIR term).")
 DECIDED = DECIDED + ' The pawn helpers (pawn_attacks, pawn_attacks_moves, pawn_quiets, pawn_moves) are decided by evaluating their extracted summaries on every square, both colours and a set of occupancies containing the blocking squares, against the pawn rules (captures only onto occupied squares, a push blocked by any piece, the double step by either square).'
+DECIDED = DECIDED + ' R90 premises re-run here: C19 C19.R6.'
 NOT_DECIDED = ("'the checked-in tables agree with what the table generator computes' is declined: that needs the generator to run. "
                "The tables are instead proved equal to the definitions the generator is meant to implement.")
 EXPLANATION = ("Constant-data rules: the bytes of each static/const are the compiler's own evaluation of the item; each is decoded with the enum "
@@ -158,6 +159,14 @@ def _perturb_const(P):
     v = P.own("values", L + "QUEENSIDE_CASTLE_SAFE_FILES")
     v["val"] = dict(v["val"])
     v["val"]["bits"] = str(int(v["val"]["bits"]) | 0x0202020202020202)
+
+
+@rule("C09.R90", 'premises shared with other properties: C19 (C19.R6)')
+def r_premises_shared(ctx):
+    """This property's argument rests on these rules of other properties (what it calls is assumed to behave); they are re-run here so that a
+    breakage of one of them is reported by this property's own check as well."""
+    from analysis.runner import premise
+    premise(ctx, 'C19', ['C19.R6'] and set(['C19.R6']), 'Pos::all() feeds the table definitions; its iterator now overrides a method nobody audited')
 
 
 CONTROLS = [
